@@ -480,13 +480,14 @@ def check_get_mpo_file(ip, ctx, out):
 def targets_file(prop):
     T = []
     R = file_registry()
+    rpf = lambda ob: {'func': 'file_view_equals_simple', 'inputs': {'obligation': ob['name']}}
     for rank in (3, 4):
         for wi in (False, True):
             for wo in (False, True):
                 T.append(WireTarget('view/mpo-accessor-equal[file,rank=%d,in=%s,out=%s]' % (rank, wi, wo), 'process_tensor.FileProcessTensor.get_mpo_tensor',
-                                    build_get_mpo_file(rank, wi, wo), check_get_mpo_file, prop, registry=R))
+                                    build_get_mpo_file(rank, wi, wo), check_get_mpo_file, prop, registry=R, replay=rpf))
         T.append(WireTarget('view/mpo-accessor[file,rank=%d,untransformed]' % rank, 'process_tensor.FileProcessTensor.get_mpo_tensor',
-                            build_get_mpo_file(rank, True, True, transformed=False), check_get_mpo_file, prop, registry=R))
+                            build_get_mpo_file(rank, True, True, transformed=False), check_get_mpo_file, prop, registry=R, replay=rpf))
     for ranks in ((4,), (3,), (4, 4), (3, 4)):
         for wt in (False, True):
             T.append(WireTarget('pt/file-compute_caps%s[transforms=%s]' % (list(ranks), wt), 'process_tensor.FileProcessTensor.compute_caps',
